@@ -30,6 +30,10 @@ pub struct Scenario {
     /// Fault mode: faults are armed from this step on; plan indices count LP calls from there
     pub fault_from_step: usize,
     pub fault_plan: FaultPlan,
+    /// Legal mode: the backend may also answer with points inside its own feasibility tolerance
+    /// (<= 1e-7 absolute) but outside the library's 1e-8 (exercises the witness repair without a fault)
+    #[serde(default)]
+    pub legal_tolerance_answers: bool,
 }
 
 #[derive(Clone, Debug, Serialize, Deserialize)]
@@ -255,6 +259,7 @@ impl Exec {
         let probe_rng = seed_rng.fork(2);
         let seam = lpseam::install(sc.mode, sc.fault_plan.clone(), seam_rng);
         seam.borrow_mut().faults_armed = false;
+        seam.borrow_mut().tolerance_answers = sc.legal_tolerance_answers;
         let mut pool = Vec::new();
         let mut models = Vec::new();
         let mut stats = PwlStats::default();
@@ -838,7 +843,7 @@ impl Exec {
                 let ok = r.is_ok();
                 let m = self.finish(*slot, &site, r, &expected, true, RefEval::ModelOnly, 0, &mut out);
                 if let Some(m) = m {
-                    if ok && !out.stop && total_pre && self.check && !(self.mode == Mode::Fault && self.faults_armed()) {
+                    if ok && !out.stop && total_pre && self.check && !(self.mode == Mode::Fault && self.faults_armed()) && !self.seam.borrow().tolerance_answers {
                         // C06 (d): #full-dimensional regions <= #terminals <= #non-empty closed regions
                         let mut ws = WalkStats::default();
                         let fat = count_fat_leaves(&expected, &mut ws);
@@ -882,7 +887,7 @@ impl Exec {
 
     fn c06_after_elimination(&mut self, slot: usize, site: &str, pre_a: bool, pre_b: bool, out: &mut StepReport) {
         let fault = self.mode == Mode::Fault && self.faults_armed();
-        if fault {
+        if fault || self.seam.borrow().tolerance_answers {
             return;
         }
         if !pre_a {
@@ -960,22 +965,56 @@ impl Exec {
         if mat.is_empty() {
             return;
         }
+        // half of the probes: rows scaled up (same point set, large norms) and start points a hair
+        // outside a facet - where an absolute tolerance and a normalised margin disagree
+        let scaled = self.probe_rng.chance(1, 2);
+        if scaled {
+            let sc = *self.probe_rng.pick(&[1e2, 1e3, 1e4, 1e6]);
+            for (r, b) in mat.iter_mut().zip(bias.iter_mut()) {
+                for v in r.iter_mut() {
+                    *v *= sc;
+                }
+                *b *= sc;
+            }
+        }
         let mut m = Array2::<f64>::zeros((mat.len(), in_dim));
         for (i, r) in mat.iter().enumerate() {
             for (j, v) in r.iter().enumerate() {
                 m[[i, j]] = *v;
             }
         }
+        if m.iter().chain(bias.iter()).any(|v| !v.is_finite()) {
+            return;
+        }
         let poly = Polytope::from_mats(m, Array1::from_vec(bias.clone()));
-        // start points: perturbed witness / far / small random
+        // start points: perturbed witness / far / small random / just outside a facet
         let n_pts = 1 + self.probe_rng.below(3);
         let mut pts = Array2::<f64>::zeros((in_dim, n_pts));
         let wit: Option<Vec<f64>> = match &tree.tree.node_value(idx).unwrap().state {
             NodeState::FeasibleWitness(ws) if !ws.is_empty() && ws[0].len() == in_dim => Some(ws[0].to_vec()),
             _ => None,
         };
+        let exact_rows = lpseam::rows_of(&mat, &bias);
+        let wd = width(in_dim, &exact_rows);
         for c in 0..n_pts {
-            let style = self.probe_rng.below(4);
+            let style = if scaled && wd.nonempty() { 4 } else { self.probe_rng.below(4) };
+            if style == 4 {
+                // boundary point on the facet hit from the centre, pushed outward by eps (normalised)
+                let live: Vec<&Row> = exact_rows.iter().filter(|r| !r.is_zero_row()).collect();
+                if live.is_empty() {
+                    return;
+                }
+                let target = live[self.probe_rng.below(live.len())];
+                let lam = crate::exact::ray_shoot(&exact_rows, &wd.center, &target.a).unwrap_or(Q::zero());
+                let hit: Vec<Q> = wd.center.iter().zip(&target.a).map(|(x, d)| x.add(&lam.mul(d))).collect();
+                let stop = live.iter().min_by(|a, b| a.slack(&hit).cmp(&b.slack(&hit))).unwrap();
+                let norm: f64 = stop.a.iter().map(|q| q.to_f64() * q.to_f64()).sum::<f64>().sqrt();
+                let eps = *self.probe_rng.pick(&[2e-11, 5e-11, 9e-11, 2e-10, 1e-9, 1e-6]);
+                for j in 0..in_dim {
+                    pts[[j, c]] = hit[j].to_f64() + eps * stop.a[j].to_f64() / norm;
+                }
+                continue;
+            }
             for j in 0..in_dim {
                 let base = wit.as_ref().map(|w| w[j]).unwrap_or(0.0);
                 pts[[j, c]] = match style {
@@ -985,6 +1024,9 @@ impl Exec {
                     _ => self.probe_rng.range(-6, 6) as f64 / 2.0,
                 };
             }
+        }
+        if pts.iter().any(|v| !v.is_finite()) {
+            return;
         }
         let iters = *self.probe_rng.pick(&[1usize, 2, 8, 20]);
         let res = guarded(|| AffTree::<2>::mirror_points(&poly, &pts, iters));
@@ -1122,6 +1164,9 @@ pub fn seeded_history_run_traced(focus: &str, run_seed: u64, print: bool) -> Run
         seam_seed: rng.next_u64(),
         fault_from_step: 0,
         fault_plan: FaultPlan::default(),
+        // not for C06: an unrepaired in-tolerance point leaves a node Indeterminate, which is
+        // "less pruning" and would make the effectiveness clauses a false-alarm source
+        legal_tolerance_answers: mode == Mode::Legal && focus != "C06" && rng.chance(1, 2),
     };
     let mut violations = Vec::new();
     let mut ex = match Exec::new(&sc, true) {
@@ -1264,6 +1309,7 @@ pub fn seeded_fault_scenario_traced(run_seed: u64, thorough: bool, print: bool) 
         seam_seed: rng.next_u64(),
         fault_from_step: 0,
         fault_plan: FaultPlan::default(),
+        legal_tolerance_answers: false,
     };
     let mut stats = PwlStats::default();
     let mut result = FaultScenarioResult {
